@@ -57,6 +57,8 @@ static unsigned char ctx_idx, ctx_state_idx, builtin_idx;
 /* The capacities double as the tables grow and must be able to exceed the
    largest 8-bit index (255); in an unsigned char 160 * 2 wraps to 64. */
 static unsigned int ctx_cnt, ctx_state_cnt, fstate_cnt, builtin_cnt;
+/* Private file-stack flag (the public ones are FILE_SKIP_TO_END and FILE_PREPROC):  the entry owns its path string. */
+#define FILE_PATH_OWNED (0x80)
 static spifconf_var_t *spifconf_vars = NULL;
 
 const char *true_vals[] = { "1", "on", "true", "yes" };
@@ -947,7 +949,8 @@ spifconf_parse_line(FILE * fp, spif_charptr_t buff)
                               file_peek_line(), path, strerror(errno));
                   FREE(path);
               } else {
-                  file_push(inc_fp, path, NULL, 1, 0);
+                  /* The stack entry owns this copy of the name; spifconf_parse() releases it with the entry. */
+                  file_push(inc_fp, path, NULL, 1, FILE_PATH_OWNED);
               }
           } else if (directive && !BEG_STRCASECMP(directive, "preproc ")) {
               spif_char_t cmd[PATH_MAX], fname[PATH_MAX];
@@ -1054,6 +1057,9 @@ spifconf_parse(spif_charptr_t conf_name, const spif_charptr_t dir, const spif_ch
         if (file_peek_preproc()) {
             remove((char *) file_peek_outfile());
             FREE(file_peek_outfile());
+        }
+        if (fstate[fstate_idx].flags & FILE_PATH_OWNED) {
+            FREE(file_peek_path());
         }
         file_pop();
     }
